@@ -23,7 +23,7 @@ PROBES = {"C09": ["ensemble", "pipeline", "multiplexer", "stacking", "online_ens
                   "final_forecaster_representation_checked", "holdout_checked",
                   "members_are_clones_checked", "parallel_member_fit", "update_params_false",
                   "reconfigured_and_refitted", "multiplexer_intervals_checked",
-                  "weights_from_out_of_sample_forecasts_checked"]}
+                  "weights_from_out_of_sample_forecasts_checked", "pipeline_as_transformer_step"]}
 FAULT_KINDS = {"C09": ["schedule_ooo", "schedule_interleave", "overlap_batch", "pickle_roundtrip"]}
 RULE = {"C09": (
     "seeded composition (ensemble/pipeline/multiplexer/stacking over spy-wrapped real forecasters "
@@ -89,6 +89,17 @@ def generate(prop, rng, tier):
                 t = C.gen_transformer(rng)
             ts.append(t)
             positive = positive and C.keeps_positive(t)
+        if rng.random() < 0.18:
+            # a pipeline of two invertible steps used as ONE transformer step of the outer pipeline
+            inner, pos2 = [], positive
+            for _ in range(2):
+                t = C.gen_transformer(rng)
+                while (not pos2 and C.needs_positive(t)) or t["kind"] == "optional":
+                    t = C.gen_transformer(rng)
+                inner.append(t)
+                pos2 = pos2 and C.keeps_positive(t)
+            ts.append({"kind": "ttf_t", "transformers": inner})
+            positive = pos2
         f = member()
         while not positive and C._contains_kind(f, ("theta", "ttf")):
             f = member()
@@ -174,6 +185,8 @@ def execute(prop, scen):
                      "joblib backend: simkit SimBackend"])
     if kind == "stack" or C.uses_stub(spec):
         res.stub.add("StubRegressor")
+    if kind == "ttf" and any(t["kind"] == "ttf_t" for t in spec["transformers"]):
+        res.probe("pipeline_as_transformer_step")
     res.probe({"ensemble": "ensemble", "ttf": "pipeline", "mux": "multiplexer",
                "stack": "stacking", "online": "online_ensemble"}[kind])
     if any(m["kind"] in ("ensemble", "ttf", "mux") for m in spec.get("members", [])) or \
@@ -349,6 +362,36 @@ def execute(prop, scen):
     return res
 
 
+class _Chain:
+    """Reference for a pipeline used as a transformer step: its leaf transformers composed by
+    hand (forward at fit/transform/update, every inverse in reverse order)."""
+
+    def __init__(self, specs):
+        self.ts = [C.build_transformer(t) for t in specs]
+
+    def fit_transform(self, z):
+        for t in self.ts:
+            z = t.fit_transform(z)
+        return z
+
+    def transform(self, z):
+        for t in self.ts:
+            z = t.transform(z)
+        return z
+
+    def inverse_transform(self, z):
+        for t in reversed(self.ts):
+            z = t.inverse_transform(z)
+        return z
+
+    def update(self, z, update_params=True):
+        for t in self.ts:
+            if hasattr(t, "update"):
+                t.update(z, update_params=update_params)
+            z = t.transform(z)
+        return self
+
+
 class Reference:
     """Reference interpreter: independent clones of the parts, composed by the
     textbook definition of each composite."""
@@ -372,7 +415,8 @@ class Reference:
                 from sktime.forecasting.online_learning import NNLSEnsemble
                 self.algo = NNLSEnsemble(n_estimators=len(self.members))
         elif k == "ttf":
-            self.trs = [C.build_transformer(t) for t in self.spec["transformers"]]
+            self.trs = [_Chain(t["transformers"]) if t["kind"] == "ttf_t" else C.build_transformer(t)
+                        for t in self.spec["transformers"]]
             z = y
             self.fit_inputs = []
             for t in self.trs:
